@@ -93,7 +93,11 @@ void h_run(Case &c) {
 static void enumerated_slices(Case &c) {
   // hwloc_compare_types over all pairs
   for (int a = 0; a < HWLOC_OBJ_TYPE_MAX; a++) { hwloc_obj_type_t A = (hwloc_obj_type_t)a; int kinds = hwloc_obj_type_is_normal(A) + hwloc_obj_type_is_memory(A) + hwloc_obj_type_is_io(A) + (A == HWLOC_OBJ_MISC);
-    CHECK(c, kinds == 1, "kind_predicates", "%s satisfies %d of normal/memory/io/misc", hwloc_obj_type_string(A), kinds); CHECK(c, hwloc_compare_types(A, A) == 0, "compare_types", "compare(%s,%s) != 0", hwloc_obj_type_string(A), hwloc_obj_type_string(A));
+    CHECK(c, kinds == 1, "kind_predicates", "%s satisfies %d of normal/memory/io/misc", hwloc_obj_type_string(A), kinds);
+    { // the cache predicates against the documented type list: L1..L5 are data/unified caches, L1i..L3i instruction caches, MemCache is a memory object and not a CPU cache
+      bool dc = A >= HWLOC_OBJ_L1CACHE && A <= HWLOC_OBJ_L5CACHE, ic = A >= HWLOC_OBJ_L1ICACHE && A <= HWLOC_OBJ_L3ICACHE;
+      CHECK(c, (hwloc_obj_type_is_dcache(A) != 0) == dc && (hwloc_obj_type_is_icache(A) != 0) == ic && (hwloc_obj_type_is_cache(A) != 0) == (dc || ic), "kind_predicates", "%s: is_cache %d is_dcache %d is_icache %d", hwloc_obj_type_string(A), hwloc_obj_type_is_cache(A), hwloc_obj_type_is_dcache(A), hwloc_obj_type_is_icache(A));
+      if (dc || ic) CHECK(c, hwloc_obj_type_is_normal(A), "kind_predicates", "CPU cache type %s is not normal", hwloc_obj_type_string(A)); } CHECK(c, hwloc_compare_types(A, A) == 0, "compare_types", "compare(%s,%s) != 0", hwloc_obj_type_string(A), hwloc_obj_type_string(A));
     for (int b = 0; b < HWLOC_OBJ_TYPE_MAX; b++) { hwloc_obj_type_t B = (hwloc_obj_type_t)b; int ab = hwloc_compare_types(A, B), ba = hwloc_compare_types(B, A);
       if (ab == HWLOC_TYPE_UNORDERED || ba == HWLOC_TYPE_UNORDERED) CHECK(c, ab == ba, "compare_types", "compare(%s,%s) unordered in one direction only", hwloc_obj_type_string(A), hwloc_obj_type_string(B)); else CHECK(c, (ab < 0) == (ba > 0) && (ab == 0) == (ba == 0), "compare_types", "compare(%s,%s)=%d but the reverse gives %d", hwloc_obj_type_string(A), hwloc_obj_type_string(B), ab, ba);
       bool na = hwloc_obj_type_is_normal(A), nb = hwloc_obj_type_is_normal(B);
